@@ -1033,10 +1033,34 @@ fn parse_r6rs_char<'de, R: Read<'de> + ?Sized>(
             b"esc" => Ok('\x1B'),
             b"space" => Ok(' '),
             b"delete" => Ok('\x7F'),
-            _ => error(read, ErrorCode::InvalidCharacterConstant),
+            name => {
+                // At the end of the input, the beginning of a character name
+                // is incomplete rather than wrong.
+                let at_end = read.peek()?.is_none();
+                if at_end && CHARACTER_NAMES.iter().any(|n| n.starts_with(name)) {
+                    error(read, ErrorCode::EofWhileParsingCharacterConstant)
+                } else {
+                    error(read, ErrorCode::InvalidCharacterConstant)
+                }
+            }
         }
     }
 }
+
+static CHARACTER_NAMES: [&[u8]; 12] = [
+    b"nul",
+    b"alarm",
+    b"backspace",
+    b"tab",
+    b"linefeed",
+    b"newline",
+    b"vtab",
+    b"page",
+    b"return",
+    b"esc",
+    b"space",
+    b"delete",
+];
 
 /// Expects a `#\x` sequence has just been consumed; returns the value of the
 /// subsequent hex digits, or `None`, if the sequence was empty.
